@@ -12,6 +12,7 @@
   module gives when queried after `h`.
 -/
 import ExoModel.Lemmas.ProcEqvState
+import ExoModel.Lemmas.ProcEqvForest
 namespace Exo.ProcEqv
 
 /-! ## (0) the fuel of `find` is never exhausted; `KeyError` exactly on undeclared procs -/
@@ -270,21 +271,32 @@ theorem single_path_reported (h : List Op) (p q : Proc) (K : List Field)
     checkAfter h p q K = .bool true :=
   (check_eqv_iff h p q K hp hq).2.2 (fun k hk => hpath.conn k hk)
 
+/-- **C11 (5), the literal reading in a forest.**  When the only recording steps are `derive_proc`s
+    of fresh procs (no `unsafe_assert_eq`; the recorded steps form a forest), an equivalence reported
+    modulo `K` is witnessed by a SINGLE walk of recorded steps each of which disturbed only fields of
+    `K` — "connected by steps each of which disturbed only fields in K", literally. -/
+theorem forest_single_path (h : List Op) (hF : Forest h) (p q : Proc) (K : List Field)
+    (hr : checkAfter h p q K = .bool true) : PathWithin K (edges h) p q := by
+  by_cases hpq : declared h p ∧ declared h q
+  · exact (forest_inv h hF).path p q K ((check_eqv_iff h p q K hpq.1 hpq.2).2.1 hr)
+  · rw [(check_keyError_iff h p q K).2 hpq] at hr
+    simp at hr
+
+def hForest : List Op :=
+  [.decl 1, .derive 1 2 [4], .check 1 2 [], .derive 1 3 [5], .decl 7, .derive 2 4 [], .strictest 3 4]
+
+example : Forest hForest := by simp [hForest, Forest, ForestFrom, Spec.step]
+example : checkAfter hForest 3 4 [5, 4] = .bool true ∧ checkAfter hForest 3 4 [5] = .bool false := by decide
+example : PathWithin [5, 4] (edges hForest) 3 4 :=
+  forest_single_path hForest (by simp [hForest, Forest, ForestFrom, Spec.step]) 3 4 [5, 4] (by decide)
+
 /-
-  The converse ("reported modulo K ⇒ a SINGLE walk all of whose steps disturb only K") is what the
-  property text literally says.  It holds when the recorded steps form a forest (only `derive_proc`
-  with fresh procs: the walk between two nodes is unique, so the per-field walks coincide), but it is
-  FALSE as soon as `assert_eqv_proc` (`unsafe_assert_eq`) closes a cycle: in `hDiamond` below the
-  two routes from 1 to 2 disturb {4} and {5} respectively, the module reports 1 ≡ 2 modulo {} — which
-  is semantically right (field 4 is preserved along one route, field 5 along the other, theorem
-  `soundness_check`) although no single route disturbs nothing.  The per-field statement (1) is the
-  sound and complete one and is what is proved; the forest converse
-
-      theorem forest_single_path (h) (hforest : every recorded step of h is a derive of a fresh proc)
-        (hr : checkAfter h p q K = .bool true) : PathWithin K (edges h) p q
-
-  is NOT proved here (it needs uniqueness of walks in a forest); only `single_path_reported` and the
-  counter-witness for the general converse are.
+  Without the forest hypothesis the converse of `single_path_reported` is FALSE: as soon as
+  `assert_eqv_proc` (`unsafe_assert_eq`) closes a cycle, two routes may each preserve what the other
+  disturbs.  In `hDiamond` the two routes from 1 to 2 disturb {4} and {5} respectively; the module
+  reports 1 ≡ 2 modulo {} — which is semantically right (field 4 is preserved along one route, field
+  5 along the other: theorem `soundness_check`) although no single route disturbs nothing.  The
+  per-field statement (1) is the sound and complete one.
 -/
 def hDiamond : List Op := [.decl 1, .derive 1 2 [4], .derive 1 3 [5], .assertEqv 3 2 []]
 
